@@ -312,6 +312,60 @@ func runH5Writers(t *testing.T, vt *vhT) {
 	// a refused writer followed, later, by a granted one (no overlap)
 	runH5GiveUp(t, vt, "403-then-ok", []h5Writer{{0, 1}, {500 * ms, 2}}, []h5Rx{{403, 80 * ms}, {0, 0}})
 
+	// the application asks for the permission itself (Client.CreatePermission, granted at once) while a writer's own request for
+	// the same peer is still out and is then refused: the writer's give-up must not drop the entry the application was granted
+	func() {
+		vt.OpSync("trace writers-app-permission-vs-refused-writer")
+		w, err := newH5DelayWorld(time.Second)
+		if err != nil {
+			vt.Alarm("h5-setup", "delay world: %v", err)
+			vt.Obs("ok")
+
+			return
+		}
+		conn, err := w.c.Allocate()
+		if err != nil {
+			vt.Alarm("h5-setup", "Allocate: %v", err)
+			vt.Obs("ok")
+			w.shutdown()
+
+			return
+		}
+		w.take()
+		w.mu.Lock()
+		w.rx = []h5Rx{{403, 200 * ms}, {0, 0}}
+		w.t0 = time.Now()
+		w.mu.Unlock()
+		peer := &net.UDPAddr{IP: net.IPv4(10, 0, 0, 9), Port: 9000}
+		done := make(chan error, 1)
+		go func() { _, err := conn.WriteTo([]byte{1}, peer); done <- err }()
+		time.Sleep(60 * ms)
+		aerr := w.c.CreatePermission(peer)
+		werr := <-done
+		time.Sleep(100 * ms)
+		first := w.take()
+		refreshed := false
+		var later []string
+		for end := time.Now().Add(4 * time.Second); time.Now().Before(end) && !refreshed; {
+			time.Sleep(100 * time.Millisecond)
+			more := w.take()
+			later = append(later, more...)
+			for _, l := range more {
+				if strings.Contains(l, " cp ") && strings.Contains(l, canonIPPort(peer.IP, peer.Port)) {
+					refreshed = true
+				}
+			}
+		}
+		if aerr == nil && !refreshed {
+			vt.Alarm("granted-permission-forgotten", "Client.CreatePermission(%s) was granted while a writer's own request for that peer was still out; the writer was then refused (%v) "+
+				"and its give-up dropped the granted entry: the permission is not refreshed (wire: %v; next periods: %v)", canonIPPort(peer.IP, peer.Port), werr, first, later)
+		}
+		_ = conn.Close()
+		w.shutdown()
+		vt.Obs("ok")
+	}()
+	vt.Flush()
+
 	// WriteTo waiting for its CreatePermission answer while Close runs
 	func() {
 		vt.OpSync("trace write-vs-close")
